@@ -30,5 +30,112 @@ let run_op (op : string) (args : string list) : string =
       | _ -> "undecodable"
     in
     hex_of_bytes (enc (fix_value be k z)) ^ " " ^ back
+  | "specenc", [ v ] -> hex_of_bytes (spec_enc (value_of_sexp (parse_sexp v)))
+  | "specde", [ t; bs ] ->
+    string_of_res (fun (v, rest) -> string_of_value v ^ " " ^ hex_of_bytes rest) (spec_de (ty_of_sexp (parse_sexp t)) (bytes_of_hex bs))
+  (* ---- storage flavours ---- *)
+  | "toslice", [ v; cap ] ->
+    let buf = List.init (int_of_string cap) (fun _ -> canary) in
+    string_of_res (fun (out, whole) -> hex_of_bytes out ^ " " ^ hex_of_bytes whole) (to_slice (value_of_sexp (parse_sexp v)) buf)
+  | "tovec", [ v; cap ] -> string_of_res hex_of_bytes (to_vec (nat_of_int (int_of_string cap)) (value_of_sexp (parse_sexp v)))
+  | "toallocvec", [ v ] -> string_of_res hex_of_bytes (to_allocvec (value_of_sexp (parse_sexp v)))
+  | "toextend", [ v; pre ] -> string_of_res hex_of_bytes (to_extend (value_of_sexp (parse_sexp v)) (bytes_of_hex pre))
+  | "toio", [ v; limit; flush ] ->
+    let lim = if limit = "-" then None else Some (nat_of_int (int_of_string limit)) in
+    string_of_res hex_of_bytes (to_io (value_of_sexp (parse_sexp v)) lim (flush = "1"))
+  | "size", [ v ] -> string_of_res (fun n -> string_of_int (int_of_n n)) (serialized_size (value_of_sexp (parse_sexp v)))
+  | "toslice_cobs", [ v; cap ] ->
+    let buf = List.init (int_of_string cap) (fun _ -> canary) in
+    string_of_res (fun (out, whole) -> hex_of_bytes out ^ " " ^ hex_of_bytes whole) (to_slice_cobs (value_of_sexp (parse_sexp v)) buf)
+  | "tovec_cobs", [ v; cap ] -> string_of_res hex_of_bytes (to_vec_cobs (nat_of_int (int_of_string cap)) (value_of_sexp (parse_sexp v)))
+  | "toallocvec_cobs", [ v ] -> string_of_res hex_of_bytes (to_allocvec_cobs (value_of_sexp (parse_sexp v)))
+  | "toslice_crc", [ alg; v; cap ] ->
+    let a, nb = alg_of_string alg in
+    let buf = List.init (int_of_string cap) (fun _ -> canary) in
+    string_of_res (fun (out, whole) -> hex_of_bytes out ^ " " ^ hex_of_bytes whole) (to_slice_crc a nb (value_of_sexp (parse_sexp v)) buf)
+  | "tovec_crc", [ alg; v; cap ] ->
+    let a, nb = alg_of_string alg in
+    string_of_res hex_of_bytes (to_vec_crc a nb (nat_of_int (int_of_string cap)) (value_of_sexp (parse_sexp v)))
+  | "toallocvec_crc", [ alg; v ] ->
+    let a, nb = alg_of_string alg in
+    string_of_res hex_of_bytes (to_allocvec_crc a nb (value_of_sexp (parse_sexp v)))
+  | "toslice_crc_cobs", [ alg; v; cap ] ->
+    let a, nb = alg_of_string alg in
+    let buf = List.init (int_of_string cap) (fun _ -> canary) in
+    string_of_res (fun (out, whole) -> hex_of_bytes out ^ " " ^ hex_of_bytes whole) (to_slice_crc_cobs a nb (value_of_sexp (parse_sexp v)) buf)
+  | "tovec_crc_cobs", [ alg; v; cap ] ->
+    let a, nb = alg_of_string alg in
+    string_of_res hex_of_bytes (to_vec_crc_cobs a nb (nat_of_int (int_of_string cap)) (value_of_sexp (parse_sexp v)))
+  | "toallocvec_crc_cobs", [ alg; v ] ->
+    let a, nb = alg_of_string alg in
+    string_of_res hex_of_bytes (to_allocvec_crc_cobs a nb (value_of_sexp (parse_sexp v)))
+  | "recorder", [ v; ov ] ->
+    string_of_res
+      (fun calls -> String.concat " " (List.map (function CPush b -> "p:" ^ String.sub (hex_of_bytes [ b ]) 1 2 | CExtend bs -> "e:" ^ hex_of_bytes bs) calls))
+      (to_recorder (ov = "1") (value_of_sexp (parse_sexp v)))
+  | "crc", [ alg; bs ] ->
+    let a, _ = alg_of_string alg in
+    hex_of_n (crc a (bytes_of_hex bs))
+  (* ---- decode side ---- *)
+  | "deptr", [ t; bs ] ->
+    string_of_res (fun (v, rest) -> string_of_value v ^ " " ^ hex_of_bytes rest) (take_from_bytes_ptr (ty_of_sexp (parse_sexp t)) (bytes_of_hex bs))
+  | "fromio", [ t; bs; limit; scratch ] ->
+    let lim = if limit = "-" then None else Some (nat_of_int (int_of_string limit)) in
+    let sc = List.init (int_of_string scratch) (fun _ -> canary) in
+    string_of_res
+      (fun (v, ((rd, scr), cur)) -> Printf.sprintf "%s %s %d %s" (string_of_value v) (hex_of_bytes rd.rd_data) (int_of_nat cur) (hex_of_bytes scr))
+      (from_io (ty_of_sexp (parse_sexp t)) { rd_data = bytes_of_hex bs; rd_limit = lim } sc)
+  | "decrc", [ alg; t; bs ] ->
+    let a, nb = alg_of_string alg in
+    string_of_res (fun (v, rest) -> string_of_value v ^ " " ^ hex_of_bytes rest) (take_from_bytes_crc a nb (ty_of_sexp (parse_sexp t)) (bytes_of_hex bs))
+  | "cobsdec", [ bs ] ->
+    (match decode_in_place_report (bytes_of_hex bs) with
+     | Ok None -> "bad"
+     | Ok (Some (buf, rep)) -> Printf.sprintf "ok %d %d %s" (int_of_nat rep.dst_used) (int_of_nat rep.src_used) (hex_of_bytes (firstn_int (int_of_nat rep.dst_used) buf))
+     | Err e -> "err:" ^ string_of_error e | Panic -> "panic" | Fault -> "fault" | OutOfFuel -> "outoffuel")
+  | "frombytescobs", [ t; bs ] ->
+    string_of_res (fun (v, _) -> string_of_value v) (from_bytes_cobs (ty_of_sexp (parse_sexp t)) (bytes_of_hex bs))
+  | "takecobs", [ t; bs ] ->
+    string_of_res (fun (v, rest) -> string_of_value v ^ " " ^ hex_of_bytes rest) (take_from_bytes_cobs (ty_of_sexp (parse_sexp t)) (bytes_of_hex bs))
+  (* ---- accumulator: a list of feed calls, comma separated; after each call the result
+     and the buffered bytes ---- *)
+  | "acc", [ t; cap; chunks ] ->
+    let t = ty_of_sexp (parse_sexp t) in
+    let st = ref (acc_new (nat_of_int (int_of_string cap))) in
+    let out = Buffer.create 64 in
+    let dead = ref false in
+    List.iter
+      (fun c ->
+        if not !dead then
+          match feed t !st (bytes_of_hex c) with
+          | Ok (st', r) ->
+            st := st';
+            Buffer.add_string out (string_of_feed r);
+            Buffer.add_string out ("[" ^ hex_of_bytes (firstn_int (int_of_nat st'.a_idx) st'.a_buf) ^ "];")
+          | Panic -> Buffer.add_string out "panic;"; dead := true
+          | Fault -> Buffer.add_string out "fault;"; dead := true
+          | OutOfFuel -> Buffer.add_string out "outoffuel;"; dead := true
+          | Err e -> Buffer.add_string out ("err:" ^ string_of_error e ^ ";"); dead := true)
+      (String.split_on_char ',' chunks);
+    Buffer.contents out
+  | "drive", [ t; cap; chunks ] ->
+    let t = ty_of_sexp (parse_sexp t) in
+    let st = ref (acc_new (nat_of_int (int_of_string cap))) in
+    let out = Buffer.create 64 in
+    let dead = ref false in
+    List.iter
+      (fun c ->
+        if not !dead then
+          match drive_chunk t !st (bytes_of_hex c) with
+          | Ok (st', evs) ->
+            st := st';
+            List.iter (fun r -> Buffer.add_string out (string_of_feed r)) evs;
+            Buffer.add_string out ("[" ^ hex_of_bytes (firstn_int (int_of_nat st'.a_idx) st'.a_buf) ^ "];")
+          | Panic -> Buffer.add_string out "panic;"; dead := true
+          | Fault -> Buffer.add_string out "fault;"; dead := true
+          | OutOfFuel -> Buffer.add_string out "outoffuel;"; dead := true
+          | Err e -> Buffer.add_string out ("err:" ^ string_of_error e ^ ";"); dead := true)
+      (String.split_on_char ',' chunks);
+    Buffer.contents out
   | _ -> failwith ("unknown op " ^ op)
 
